@@ -85,9 +85,10 @@ def strip_generics(path):
     """remove `::<...>` turbofish segments and generic args of the last type segments"""
     segs = split_path(path)
     out = []
-    for s in segs:
-        if s.startswith('<') and ' as ' not in s and not s.startswith('<impl') and s.endswith('>'):
-            # pure generic args segment (turbofish)
+    for i, s in enumerate(segs):
+        if s.startswith('<') and s.endswith('>') and (not s.startswith('<impl') or (i == len(segs) - 1 and i > 0)) \
+                and (i > 0 or ' as ' not in s):
+            # pure generic args segment (turbofish); `<T as Trait>` only occurs as the first segment
             continue
         out.append(s)
     return '::'.join(out)
@@ -190,6 +191,14 @@ class Program:
                 c2.append(f)
         if len(c2) == 1:
             return c2[0], 'path'
+        if len(c2) > 1 and len(segs) >= 2:
+            # the wildcard stood for a type: its identifier has to occur in the candidate's signature
+            tid = base_ident(segs[-2])
+            c3 = [f for f in c2 if tid in set(re.findall(r'[A-Za-z_][A-Za-z_0-9]*', ' '.join(a[1] for a in f.args) + ' -> ' + f.ret_ty))]
+            if len(c3) == 1:
+                return c3[0], 'path-type'
+            if c3:
+                c2 = c3
         if len(c2) > 1 and caller is not None:
             c3 = [f for f in c2 if f.crate == caller.crate]
             if len(c3) == 1:
